@@ -93,8 +93,11 @@ func flowModule() *module {
 		switch kind {
 		case 0:
 			r.K = k
+			// any statistic interval is valid: multiples and non-multiples of the global bucket length, shorter and
+			// longer than the global window (the probe runs inside one frozen instant, so K does not depend on it)
+			iv := vk.PickU32(rng, 0, 0, 0, 100, 500, 1000, 1100, 1300, 2000, 2500, 9999, 10000, 20000, 60000)
 			mk0 = func() *flow.Rule {
-				return &flow.Rule{ID: id, Resource: res, TokenCalculateStrategy: flow.Direct, ControlBehavior: flow.Reject, Threshold: float64(k)}
+				return &flow.Rule{ID: id, Resource: res, TokenCalculateStrategy: flow.Direct, ControlBehavior: flow.Reject, Threshold: float64(k), StatIntervalInMs: iv}
 			}
 		case 1: // valid but never binding in the probe
 			switch rng.Intn(3) {
@@ -201,7 +204,7 @@ func flowModule() *module {
 		return o
 	}
 	m.probe = func(res string) probeRes {
-		clk.AddMs(20000)
+		clk.AddMs(130000) // an empty window whatever the rule's statistic interval (up to 60 s; statistics may be kept across loads)
 		p := probeRes{}
 		for p.N < probeCap {
 			e, b := sentinel.Entry(res)
